@@ -1,13 +1,25 @@
 import Proofs.Lemmas.LMLoop
+import Proofs.Lemmas.LMRetr
 /-!
 # C08 — LM never accepts a worse loss, restores rejected trials, reports the true loss
 
-Property theorems only (helpers: `Proofs/Lemmas/LMLoop.lean`; model: `Pose/Model/LMLoop.lean`).
-All statements are at `α = ℝ`, for arbitrary parameter / step / strategy-state types `P D S`, every
-loss function `lossAt`, every solver behaviour (including raising at any solve), every user strategy
-`upd`, every `reject`, every history of calls.  The only hypothesis about the retraction is the
-contract `retr (retr p d) (neg d) = p` (`hinv`); it is discharged for Euclidean parameters in
-`vec_retr_inv` and for SO3 parameters (closed-form branch of `Exp`) in `so3_retr_inv`.
+Property theorems only (helpers: `Proofs/Lemmas/LMLoop.lean`, `Proofs/Lemmas/LMRetr.lean`; model: `Pose/Model/LMLoop.lean`).
+All statements are at `α = ℝ`, for arbitrary parameter / step / strategy-state types `P D S`, every loss function
+`lossAt`, every solver behaviour (including raising at any solve), every user strategy `upd`, every `reject`, every
+history of calls.
+
+**The retraction contract.** The *exact* loop / history theorems assume `RetrOK pr e`: undoing a step *that the solver
+returned* gives the point back, `retr (retr p d) (neg d) = p`. This is
+* true for every step of Euclidean parameters (`vec_retrOK`);
+* true for SO3 / SE3 / RxSO3 parameters for steps whose rotation part lies on the closed-form branch of `Exp`
+  (`‖φ‖ > eps ≥ 0`: `so3_retrOK`, `se3_retrOK`, `rxso3_retrOK`), for Sim3 in regime 4 or `σ = 0` (`sim3_retrOK_partial`);
+* FALSE on the Taylor branch of `Exp` (`‖φ‖ ≤ eps`): there `Exp(−x)(Exp(x)X) = (1+c)·X` with `0 ≤ c ≤ eps⁶/23040`
+  (`so3_retr_defect`).
+For that case — and for the property's "up to round-off of the retraction" in general — the *defect* theorems
+(`reject_restores_within_defect`, `returns_loss_within_defect`, `monotone_unless_exhausted_defect`, `lmCall_defect`,
+`lmRun_defect`) assume only that undoing a step misses by at most `δ` in some distance for which the loss is
+`L`-Lipschitz, and carry "restored up to `k·δ`", "returned loss = loss at the parameters left behind up to `L·k·δ`"
+through the loop and through histories. `δ = 0` gives back the exact statements.
 -/
 namespace PP.LMLoop
 open PP
@@ -31,7 +43,9 @@ theorem lm_halts (cached : Option ℝ) (p : P) (s : S) (n : Nat) :
   exact loop_dead pr reject e n _ h
 
 /-- **At most `reject+1` trials per call** (solver calls, a raising one included), and at most `reject`
-rejections. No hypothesis at all. -/
+rejections. No hypothesis at all. (`solves ≤ reject+1` alone would hold for `lmStep` by construction of its fuel; that the
+fuel is never what stops the loop — i.e. that this is a statement about the unbounded `while` of the code — is `lm_halts`:
+the loop is halted after `reject+1` passes and more fuel changes nothing. `rc ≤ reject` is the real invariant.) -/
 theorem trials_le (cached : Option ℝ) (p : P) (s : S) :
     (lmStep pr reject e cached p s).solves ≤ reject + 1 ∧ (lmStep pr reject e cached p s).rc ≤ reject := by
   have key : ∀ (n : Nat) (st : St P S ℝ), st.rc ≤ reject →
@@ -123,7 +137,9 @@ theorem reject_pass (st : St P S ℝ) (h : (body pr reject e st).rc = st.rc + 1)
   · exact ⟨d, hs, hw, hr, hb⟩
   · rw [hb] at h; simp [accSt] at h
 
-/-- … and with the retraction contract that state has the parameters and the loss of before the trial. -/
+/-- … and with the retraction contract that state has the parameters and the loss of before the trial. (The parameter
+part IS the contract `RetrOK` applied to this very step — nothing more is claimed; the content is that the loss is reset
+and the loop goes on. For an inexact retraction see `reject_restores_within_defect`.) -/
 theorem reject_pass_restores (st : St P S ℝ) (h : (body pr reject e st).rc = st.rc + 1) :
     (body pr reject e st).p = st.p ∧ (body pr reject e st).loss = st.last ∧
       (body pr reject e st).live = true := by
@@ -501,6 +517,10 @@ theorem trust_bounds (h : Hyper ℝ) (s : SState ℝ) (num den : ℝ) (hmm : h.s
   · rw [hdm]; exact one_div_le_one_div_of_le hpos hr.1
   · rw [hdm]; field_simp
 
+/-- the bounds *including* `damping·radius = 1` for TrustRegion — that part needs `0 < min` (radius ≠ 0) and the interval
+statement needs `min ≤ max`; neither is asserted by the constructors. What holds for every accepted hyper-parameters is
+`stratUpd_inRange` / `stratRun_inRange` / `lmRun_inRange` (no hypothesis), `adaptive_degenerate` / `trust_degenerate`
+(`min > max`) and `updTrustE_error_iff` (zero damping / radius). -/
 theorem stratUpd_inBounds (kd : Kind) (h : Hyper ℝ) (s : SState ℝ) (num den : ℝ)
     (hmm : h.smin ≤ h.smax) (hpos : 0 < h.smin) : InBounds kd h (stratUpd kd h s num den) := by
   cases kd with
@@ -558,7 +578,7 @@ theorem lmStep_inBounds_of_first_solve (kd : Kind) (h : Hyper ℝ) (hmm : h.smin
     · rw [hb]; simp only [accSt]; rw [hupd]; exact stratUpd_inBounds kd h _ _ _ hmm hpos
 
 /-- **A rejected trial is classified "unsuccessful"** whenever the predicted decrease is positive (it is
-for every genuine LM step) and the thresholds are positive (constructor asserts): so on rejection
+for every genuine LM step: `qualityDen_pos_of_lm_step`) and the thresholds are positive (constructor asserts): so on rejection
 Adaptive multiplies the damping by `up` and TrustRegion multiplies the radius by the current
 down-factor and shrinks that factor. -/
 theorem rejected_is_unsuccessful (high low last loss den : ℝ) (hw : last < loss) (hden : 0 < den)
@@ -877,7 +897,9 @@ theorem verdict_at_low (high low den : ℝ) (hd : den ≠ 0) (hlh : low ≤ high
   have hq : low * den / den = low := by field_simp
   exact ((verdict_iff high low (low * den) den hd).2.2).mpr (by rw [hq]; exact ⟨hlh, le_rfl⟩)
 
-/-- the `den = 0` branch of the model (IEEE: `x/0 = ±inf`, `0/0 = NaN`) -/
+/-- the `den = 0` branch of `verdict`, i.e. the convention `den = +0.`. The code's denominator is `-(t)` and is `-0.` when
+`J D = 0`: that case (the one that occurs) is `verdictZ_den_zero` with `negZero = true`, where the two non-NaN outcomes
+are swapped. -/
 theorem verdict_den_zero (high low num : ℝ) :
     verdict high low num 0 = if 0 < num then Verdict.very else Verdict.bad := by
   unfold verdict; rw [isZero_eq]; simp
@@ -1053,6 +1075,367 @@ theorem last_allowed_trial (hinv : RetrOK pr e)
 
 example : clampMM (⟨1/2, 1/1000, 2, 1/2, 1/2, 1/4, 4⟩ : Hyper ℝ) (1/4) = 1/4 :=
   (clampMM_at_bounds _ (by norm_num)).1
+
+/-! ## the property's "up to round-off of the retraction": loop and histories under a retraction defect -/
+
+section defect
+variable (dist : P → P → ℝ) (L δ : ℝ) (hD : Defect pr e dist L δ)
+include hD
+
+/-- **Every rejected trial leaves the parameters equal up to the defect of the retraction**: whenever the loop is about
+to make another trial (after `reject_count` rejections) the parameters are within `reject_count·δ` of the ones the call
+was given, and the loss is (exactly) the loss the call started from. -/
+theorem reject_restores_within_defect (cached : Option ℝ) (p : P) (s : S) (n : Nat)
+    (hl : (loop pr reject e n (start pr cached p s)).live = true) :
+    let st := loop pr reject e n (start pr cached p s)
+    dist st.p p ≤ st.rc * δ ∧ st.rc ≤ reject ∧ st.loss = (start pr cached p s : St P S ℝ).last ∧ st.solves = st.rc := by
+  intro st
+  have hI := loop_invD pr reject e dist L δ hD _ p n _ (start_invD pr reject e dist L δ hD cached p s)
+  have := hI.live_p hl
+  exact ⟨this.2.2, hI.rc_le, this.1, this.2.1⟩
+
+/-- **The returned value is the loss at the parameters left behind, up to the defect**: either the last trial was kept
+and the value is *exactly* the loss there, or the call ended with restored parameters (solver raised after `k = reject_count`
+rejections) and the value is the loss `l0` the call started from while the parameters are within `k·δ` of the given ones —
+so `|returned − loss(parameters left)| ≤ |l0 − loss(given)| + L·k·δ`. -/
+theorem returns_loss_within_defect (cached : Option ℝ) (p : P) (s : S) :
+    let st := lmStep pr reject e cached p s
+    let l0 := (start pr cached p s : St P S ℝ).last
+    (st.loss = pr.lossAt st.p ∨ (st.loss = l0 ∧ dist st.p p ≤ st.rc * δ)) ∧
+      |st.loss - pr.lossAt st.p| ≤ |l0 - pr.lossAt p| + L * (st.rc * δ) := by
+  intro st l0
+  have hI := loop_invD pr reject e dist L δ hD _ p (reject + 1) _ (start_invD pr reject e dist L δ hD cached p s)
+  have hd := (hI.dead (lm_halts pr reject e cached p s 0).1).2.2
+  refine ⟨hd, ?_⟩
+  have hnn : 0 ≤ L * ((st.rc : ℝ) * δ) := mul_nonneg hD.lip_nonneg (mul_nonneg (Nat.cast_nonneg _) hD.delta_nonneg)
+  rcases hd with h | ⟨h1, h2⟩
+  · have h' : st.loss = pr.lossAt st.p := h
+    rw [h', sub_self, abs_zero]; exact add_nonneg (abs_nonneg _) hnn
+  · show |st.loss - pr.lossAt st.p| ≤ _
+    have hl := hD.lip p st.p
+    have h3 : L * dist st.p p ≤ L * ((st.rc : ℝ) * δ) := mul_le_mul_of_nonneg_left h2 hD.lip_nonneg
+    have hsym : |pr.lossAt p - pr.lossAt st.p| ≤ L * dist st.p p := by
+      have := hD.lip st.p p; rwa [abs_sub_comm] at this
+    have e1 : st.loss - pr.lossAt st.p = (l0 - pr.lossAt p) + (pr.lossAt p - pr.lossAt st.p) := by
+      have : st.loss = l0 := h1
+      rw [this]; ring
+    rw [e1]
+    calc |(l0 - pr.lossAt p) + (pr.lossAt p - pr.lossAt st.p)| ≤ |l0 - pr.lossAt p| + |pr.lossAt p - pr.lossAt st.p| := abs_add_le _ _
+      _ ≤ |l0 - pr.lossAt p| + L * ((st.rc : ℝ) * δ) := by linarith
+
+/-- never worse than the loss the call started from unless the rejections were exhausted — no contract needed beyond the
+defect bookkeeping (the comparison is between computed losses) -/
+theorem monotone_unless_exhausted_defect (cached : Option ℝ) (p : P) (s : S) :
+    let st := lmStep pr reject e cached p s
+    st.last = (start pr cached p s : St P S ℝ).last ∧
+      (st.loss ≤ st.last ∨ (st.rc = reject ∧ st.solves = reject + 1)) := by
+  intro st
+  have hI := loop_invD pr reject e dist L δ hD _ p (reject + 1) _ (start_invD pr reject e dist L δ hD cached p s)
+  have hd := hI.dead (lm_halts pr reject e cached p s 0).1
+  refine ⟨hI.last_eq, ?_⟩
+  rcases hd.2.1 with h | h
+  · left
+    have hle : st.last = (start pr cached p s : St P S ℝ).last := hI.last_eq
+    rw [hle]; exact h
+  · right; exact ⟨h, by have := hd.1; rw [h] at this; exact this⟩
+
+end defect
+
+/-- the cache of the optimizer is true up to `η` -/
+def ConsistentD (pr : Prob P D ℝ) (η : ℝ) (o : Opt P S ℝ) : Prop :=
+  o.cached = none ∨ ∃ l, o.cached = some l ∧ |l - pr.lossAt o.p| ≤ η
+
+/-- **One call under a defect**: the cache stays true up to `η + L·reject·δ`; it is exact again (`η = 0` suffices) after
+every call that keeps its last trial. -/
+theorem lmCall_defect (dist : P → P → ℝ) (L δ : ℝ) (hD : Defect pr e dist L δ) (η : ℝ) (hη : 0 ≤ η)
+    (o : Opt P S ℝ) (ho : ConsistentD pr η o) :
+    ConsistentD pr (η + L * (reject * δ)) (lmCall pr reject o e) := by
+  right
+  refine ⟨(lmStep pr reject e o.cached o.p o.s).loss, rfl, ?_⟩
+  have h := (returns_loss_within_defect pr reject e dist L δ hD o.cached o.p o.s).2
+  have hrc := (trials_le pr reject e o.cached o.p o.s).2
+  have h0 : |(start pr o.cached o.p o.s : St P S ℝ).last - pr.lossAt o.p| ≤ η := by
+    rcases ho with hc | ⟨l, hc, hl⟩
+    · rw [hc]; show |pr.lossAt o.p - pr.lossAt o.p| ≤ η; rw [sub_self, abs_zero]; exact hη
+    · rw [hc]; exact hl
+  have h1 : L * (((lmStep pr reject e o.cached o.p o.s).rc : ℝ) * δ) ≤ L * ((reject : ℝ) * δ) := by
+    apply mul_le_mul_of_nonneg_left _ hD.lip_nonneg
+    exact mul_le_mul_of_nonneg_right (by exact_mod_cast hrc) hD.delta_nonneg
+  show |(lmStep pr reject e o.cached o.p o.s).loss - pr.lossAt (lmStep pr reject e o.cached o.p o.s).p| ≤ _
+  linarith
+
+/-- **Any history under a defect**: after `n` calls the cached loss is the loss at the current parameters up to
+`η + n·L·reject·δ` (with `δ = 0`: exactly, `lmRun_consistent`). -/
+theorem lmRun_defect (dist : P → P → ℝ) (L δ : ℝ) (es : List (Env P D S ℝ)) (hD : ∀ e ∈ es, Defect pr e dist L δ)
+    (hL : 0 ≤ L) (hδ : 0 ≤ δ) (η : ℝ) (hη : 0 ≤ η) (o : Opt P S ℝ) (ho : ConsistentD pr η o) :
+    ConsistentD pr (η + es.length * (L * (reject * δ))) (lmRun pr reject o es) := by
+  induction es generalizing o η with
+  | nil => simpa [lmRun] using ho
+  | cons e es ih =>
+    have h1 := lmCall_defect pr reject e dist L δ (hD e (List.mem_cons_self ..)) η hη o ho
+    have hstep : 0 ≤ L * ((reject : ℝ) * δ) := mul_nonneg hL (mul_nonneg (Nat.cast_nonneg _) hδ)
+    have := ih (fun e' he' => hD e' (List.mem_cons_of_mem _ he')) (η + L * (reject * δ)) (by linarith) _ h1
+    show ConsistentD pr _ (lmRun pr reject (lmCall pr reject o e) es)
+    have e2 : η + ((e :: es).length : ℝ) * (L * (reject * δ)) = η + L * (reject * δ) + (es.length : ℝ) * (L * (reject * δ)) := by
+      simp only [List.length_cons]; push_cast; ring
+    rw [e2]; exact this
+
+/-! ## the retraction contract for the parameter types of pypose -/
+
+/-- Euclidean parameters (`p.add_(D)`, `p.add_(−D)`): the contract holds for every step -/
+theorem vec_retrOK (lossAt : (Nat → ℝ) → ℝ) (e : Env (Nat → ℝ) (Nat → ℝ) S ℝ) :
+    RetrOK ({ lossAt := lossAt, retr := fun p d i => p i + d i, neg := fun d i => -(d i) } : Prob (Nat → ℝ) (Nat → ℝ) ℝ) e := by
+  intro k p d _; funext i; show p i + d i + -(d i) = p i; ring
+
+/-- **SO3 parameters** (`retr X x = Exp(x)·X`): the contract holds for a solver all of whose steps lie on the closed-form
+branch of `Exp` (`‖x‖ > eps ≥ 0`). It does NOT hold for steps on the Taylor branch (there `so3_retr_defect`). -/
+theorem so3_retrOK (eps : ℝ) (h0 : 0 ≤ eps) (lossAt : Quat ℝ → ℝ) (e : Env (Quat ℝ) (Vec3 ℝ) S ℝ)
+    (hstep : ∀ k X x, e.solve k X = some x → eps < x.norm) :
+    RetrOK { lossAt := lossAt, retr := SO3Retr eps, neg := Vec3.neg } e := by
+  intro k X x hs
+  exact so3_retr_inv eps x X h0 (hstep k X x hs)
+
+/-- **SO3, any step**: the restored quaternion is `(1 + c)·X` with `c = 0` on the closed-form branch and
+`0 ≤ c ≤ ‖x‖⁶/23040 ≤ eps⁶/23040` on the Taylor branch (`eps ≤ 1`): the defect of the contract, component by component. -/
+theorem so3_retr_defect (eps : ℝ) (h0 : 0 ≤ eps) (h1 : eps ≤ 1) (x : Vec3 ℝ) (X : Quat ℝ) :
+    ∃ c : ℝ, 0 ≤ c ∧ c ≤ eps ^ 6 / 23040 ∧ (eps < x.norm → c = 0) ∧
+      SO3Retr eps (SO3Retr eps X x) x.neg = ⟨(1 + c) * X.x, (1 + c) * X.y, (1 + c) * X.z, (1 + c) * X.w⟩ := by
+  refine ⟨(so3Exp eps x).normSq - 1, ?_, ?_, ?_, ?_⟩
+  · by_cases h : eps < x.norm
+    · rw [so3Exp_normSq_closed eps x h0 h]; simp
+    · have hn : x.norm * x.norm ≤ 1 := by
+        have := not_lt.mp h
+        have hx := Vec3.norm_nonneg x
+        nlinarith
+      exact (so3_retr_taylor eps x h hn).1
+  · by_cases h : eps < x.norm
+    · rw [so3Exp_normSq_closed eps x h0 h]; simp; positivity
+    · have hle := not_lt.mp h
+      have hx := Vec3.norm_nonneg x
+      have hn : x.norm * x.norm ≤ 1 := by nlinarith
+      have h2 := (so3_retr_taylor eps x h hn).2
+      have h3 : (x.norm * x.norm) ^ 3 ≤ eps ^ 6 := by
+        have : x.norm * x.norm ≤ eps * eps := by nlinarith
+        calc (x.norm * x.norm) ^ 3 ≤ (eps * eps) ^ 3 := pow_le_pow_left₀ (by positivity) this 3
+          _ = eps ^ 6 := by ring
+      calc _ ≤ (x.norm * x.norm) ^ 3 / 23040 := h2
+        _ ≤ eps ^ 6 / 23040 := by gcongr
+  · intro h; rw [so3Exp_normSq_closed eps x h0 h]; simp
+  · show (so3Exp eps x.neg).mul ((so3Exp eps x).mul X) = _
+    rw [so3_retr_scaled]; simp
+
+/-- **SE3 parameters**: exact for steps whose rotation part is on the closed-form branch -/
+theorem se3_retrOK (eps : ℝ) (h0 : 0 ≤ eps) (lossAt : SE3 ℝ → ℝ) (e : Env (SE3 ℝ) (se3 ℝ) S ℝ)
+    (hstep : ∀ k X x, e.solve k X = some x → eps < x.phi.norm) :
+    RetrOK { lossAt := lossAt, retr := SE3Retr eps, neg := se3.neg } e :=
+  fun k X x hs => se3_retr_inv eps x X h0 (hstep k X x hs)
+
+/-- **RxSO3 parameters**: exact for steps whose rotation part is on the closed-form branch (any log-scale) -/
+theorem rxso3_retrOK (eps : ℝ) (h0 : 0 ≤ eps) (lossAt : RxSO3 ℝ → ℝ) (e : Env (RxSO3 ℝ) (rxso3 ℝ) S ℝ)
+    (hstep : ∀ k X x, e.solve k X = some x → eps < x.phi.norm) :
+    RetrOK { lossAt := lossAt, retr := RxSO3Retr eps, neg := rxso3.neg } e :=
+  fun k X x hs => rxso3_retr_inv eps x X h0 (hstep k X x hs)
+
+/-- **Sim3 parameters, partial**: exact for steps in regime 4 of the coupling matrix (`‖φ‖ > eps`, `|σ| > eps`) or with
+`σ = 0`, `‖φ‖ > eps`. Missing: the thin regime `0 < |σ| ≤ eps < ‖φ‖` and the small-angle regimes, where `W(−x) = e^{−σ}RᵀW(x)`
+holds only up to the series truncation. -/
+theorem sim3_retrOK_partial (eps : ℝ) (h0 : 0 ≤ eps) (lossAt : Sim3 ℝ → ℝ) (e : Env (Sim3 ℝ) (sim3 ℝ) S ℝ)
+    (hstep : ∀ k X x, e.solve k X = some x → eps < x.phi.norm ∧ (eps < |x.sigma| ∨ x.sigma = 0)) :
+    RetrOK { lossAt := lossAt, retr := Sim3Retr eps, neg := sim3.neg } e :=
+  fun k X x hs => sim3_retr_inv eps x X h0 (hstep k X x hs).1 (hstep k X x hs).2
+
+example : ∃ (eps : ℝ) (x : se3 ℝ), 0 ≤ eps ∧ eps < x.phi.norm :=
+  ⟨0, ⟨⟨1, 2, 3⟩, ⟨1, 0, 0⟩⟩, le_rfl, by simp [Vec3.norm, Vec3.normSq]⟩
+
+/-! ## the zero-denominator case as the code has it; the error branch of TrustRegion -/
+
+/-- away from a zero denominator the sign flag is irrelevant -/
+theorem verdictZ_of_ne (z : Bool) (high low num den : ℝ) (hd : den ≠ 0) :
+    verdictZ z high low num den = verdict high low num den := by
+  unfold verdictZ verdict
+  rw [isZero_eq]; simp [hd]
+
+/-- `verdict` is the `den = +0.` convention -/
+theorem verdictZ_false (high low num den : ℝ) : verdictZ false high low num den = verdict high low num den := by
+  by_cases hd : den = 0
+  · subst hd
+    unfold verdictZ verdict
+    rw [isZero_eq, isZero_eq]
+    by_cases hn : num = 0
+    · simp [hn]
+    · simp [hn]
+  · exact verdictZ_of_ne false high low num den hd
+
+/-- **Zero denominator, as the code computes it** (`den = -(+0.) = -0.`, `negZero = true`, the case `J D = 0`):
+`0 / (-0.) = NaN` → "unsuccessful"; a decrease (`last > loss`) gives `-inf` → "unsuccessful" (damping × up);
+an increase (`last < loss`) gives `+inf` → "very successful". With `den = +0.` (`negZero = false`) the last two swap. -/
+theorem verdictZ_den_zero (z : Bool) (high low num : ℝ) :
+    verdictZ z high low num 0 =
+      if num = 0 then Verdict.bad else if (decide (0 < num) != z) then Verdict.very else Verdict.bad := by
+  unfold verdictZ
+  rw [isZero_eq, isZero_eq]
+  simp
+
+example : verdictZ true (1/2 : ℝ) (1/1000) 1 0 = Verdict.bad ∧ verdictZ true (1/2 : ℝ) (1/1000) (-1) 0 = Verdict.very ∧
+    verdictZ true (1/2 : ℝ) (1/1000) 0 0 = Verdict.bad := by
+  refine ⟨?_, ?_, ?_⟩ <;> rw [verdictZ_den_zero] <;> norm_num
+
+/-- **`TrustRegion.update` raises `ZeroDivisionError` exactly when `pg['damping'] = 0` or the clamped radius is `0`**
+(`1. / pg['damping']`, `1. / pg['radius']` on Python floats) -/
+theorem updTrustE_error_iff (h : Hyper ℝ) (s : SState ℝ) (v : Verdict) :
+    updTrustE h s v = .error "ZeroDivisionError" ↔ (s.damping = 0 ∨ (updTrust h s v).radius = 0) := by
+  simp only [updTrustE, isZero_eq]
+  by_cases h1 : s.damping = 0
+  · simp [h1]
+  · by_cases h2 : (updTrust h s v).radius = 0
+    · simp [h1, h2]
+    · simp [h1, h2]
+
+/-- … and otherwise it is the documented update; with `0 < min ≤ max` the radius cannot be `0` -/
+theorem updTrustE_ok (h : Hyper ℝ) (s : SState ℝ) (v : Verdict) (hd : s.damping ≠ 0) (hmm : h.smin ≤ h.smax)
+    (hpos : 0 < h.smin) : updTrustE h s v = .ok (updTrust h s v) := by
+  have hr : (updTrust h s v).radius ≠ 0 := by
+    have : h.smin ≤ (updTrust h s v).radius := by unfold updTrust; exact (clampMM_bounds h _ hmm).1
+    exact ne_of_gt (lt_of_lt_of_le hpos this)
+  simp only [updTrustE, isZero_eq]
+  simp [hd, hr]
+
+example : updTrustE (⟨1/2, 1/1000, 2, 1/2, 1/2, 1/1000000, 10^16⟩ : Hyper ℝ) ⟨0, 1, 1/2⟩ Verdict.bad = .error "ZeroDivisionError" :=
+  (updTrustE_error_iff _ _ _).mpr (Or.inl rfl)
+
+/-- `stratUpdZ` is `stratUpd` whenever nothing exceptional happens -/
+theorem stratUpdZ_eq (kd : Kind) (z : Bool) (h : Hyper ℝ) (s : SState ℝ) (num den : ℝ) (hden : den ≠ 0)
+    (hd : s.damping ≠ 0) (hmm : h.smin ≤ h.smax) (hpos : 0 < h.smin) :
+    stratUpdZ kd z h s num den = .ok (stratUpd kd h s num den) := by
+  cases kd with
+  | constant => rfl
+  | adaptive => simp only [stratUpdZ, stratUpd, verdictZ_of_ne z _ _ _ _ hden]
+  | trust => simp only [stratUpdZ, stratUpd, verdictZ_of_ne z _ _ _ _ hden]; exact updTrustE_ok h s _ hd hmm hpos
+
+/-! ## what "stays within [min,max]" means for every legal choice of hyper-parameters -/
+
+/-- the clamp `max(min, min(x, max))` always lands in `[min, max(min, max)]` — no hypothesis -/
+theorem clampMM_range (h : Hyper ℝ) (x : ℝ) : h.smin ≤ clampMM h x ∧ clampMM h x ≤ max h.smin h.smax := by
+  rw [clampMM_eq]
+  exact ⟨le_max_left _ _, max_le_max le_rfl (min_le_right _ _)⟩
+
+/-- **For every strategy and every hyper-parameters the constructors accept** (no `min ≤ max`, no positivity): after an
+update the damping (Adaptive) resp. radius and down-factor (TrustRegion) lie in `[min, max(min, max)]` — which is
+`[min, max]` when `min ≤ max` and the single point `min` when `min > max`. -/
+theorem stratUpd_inRange (kd : Kind) (h : Hyper ℝ) (s : SState ℝ) (num den : ℝ) :
+    InRange kd h (stratUpd kd h s num den) := by
+  cases kd with
+  | constant => trivial
+  | adaptive => show _ ∧ _; unfold stratUpd updAdaptive; exact clampMM_range h _
+  | trust =>
+    show _ ∧ _ ∧ _ ∧ _
+    unfold stratUpd updTrust
+    exact ⟨(clampMM_range h _).1, (clampMM_range h _).2, (clampMM_range h _).1, (clampMM_range h _).2⟩
+
+theorem stratRun_inRange (kd : Kind) (h : Hyper ℝ) (s : SState ℝ) (qs : List (ℝ × ℝ)) (hne : qs ≠ []) :
+    InRange kd h (stratRun kd h s qs) := by
+  have key : ∀ (qs : List (ℝ × ℝ)) (s : SState ℝ), InRange kd h s → InRange kd h (stratRun kd h s qs) := by
+    intro qs
+    induction qs with
+    | nil => intro s hs; exact hs
+    | cons a qs ih => intro s _; exact ih _ (stratUpd_inRange kd h s a.1 a.2)
+  cases qs with
+  | nil => exact absurd rfl hne
+  | cons a qs => exact key qs _ (stratUpd_inRange kd h s a.1 a.2)
+
+/-- over any history of LM calls with a library strategy, without any assumption on the hyper-parameters -/
+theorem lmRun_inRange (kd : Kind) (h : Hyper ℝ) (pr : Prob P D ℝ) (es : List (Env P D (SState ℝ) ℝ))
+    (hes : ∀ e ∈ es, ∃ den : D → ℝ, ∀ s a b d, e.upd s a b d = stratUpd kd h s (a - b) (den d))
+    (o : Opt P (SState ℝ) ℝ) (ho : InRange kd h o.s) :
+    InRange kd h (lmRun pr reject o es).s := by
+  apply lmRun_strategy_invariant pr reject (InRange kd h) es _ o ho
+  intro e he s a b d _
+  obtain ⟨den, hden⟩ := hes e he
+  rw [hden]
+  exact stratUpd_inRange kd h s _ _
+
+/-- `min > max` (not excluded by the constructors): the damping is pinned to `min` by every update -/
+theorem adaptive_degenerate (h : Hyper ℝ) (s : SState ℝ) (num den : ℝ) (hdeg : h.smax < h.smin) :
+    (stratUpd Kind.adaptive h s num den).damping = h.smin := by
+  show (updAdaptive h s _).damping = _
+  unfold updAdaptive
+  exact clamp_degenerate h _ hdeg
+
+theorem trust_degenerate (h : Hyper ℝ) (s : SState ℝ) (num den : ℝ) (hdeg : h.smax < h.smin) :
+    (stratUpd Kind.trust h s num den).radius = h.smin ∧ (stratUpd Kind.trust h s num den).down = h.smin := by
+  show (updTrust h s _).radius = _ ∧ (updTrust h s _).down = _
+  unfold updTrust
+  exact ⟨clamp_degenerate h _ hdeg, clamp_degenerate h _ hdeg⟩
+
+/-! ## "by the ratio of actual to predicted decrease": what the denominator is -/
+
+theorem sum_zip_identity : ∀ (R u : List ℝ), R.length = u.length →
+    -(List.zipWith (· * ·) u (List.zipWith (fun r ui => 2 * r + ui) R u)).sum =
+      (List.zipWith (· * ·) R R).sum - (List.zipWith (· * ·) (List.zipWith (· + ·) R u) (List.zipWith (· + ·) R u)).sum
+  | [], [], _ => by simp
+  | r :: R, a :: u, h => by
+    have ih := sum_zip_identity R u (by simpa using h)
+    simp only [List.zipWith_cons_cons, List.sum_cons]
+    linarith [ih]
+  | [], _ :: _, h => by simp at h
+  | _ :: _, [], h => by simp at h
+
+/-- **The denominator of the step quality is the decrease predicted by the linear model**:
+`-((J D)ᵀ(2R + J D)) = ‖R‖² − ‖R + J D‖²` (one residual per row of `J`). -/
+theorem qualityDen_eq (J : DMat ℝ) (Dv R : DVec ℝ) (hlen : R.length = J.length) :
+    qualityDen J Dv R = DVec.normSq R - DVec.normSq (DVec.add R (DMat.mulVec J Dv)) := by
+  unfold qualityDen DVec.normSq DVec.dot DVec.add
+  simp only [dsum_eq, k_real, Nat.cast_ofNat]
+  have hl : R.length = (DMat.mulVec J Dv).length := by unfold DMat.mulVec; simpa using hlen
+  exact sum_zip_identity R (DMat.mulVec J Dv) hl
+
+/-- **For a genuine LM step the predicted decrease is positive**: if `D` solves the damped normal equations
+`(JᵀJ + Λ) D = −JᵀR` with `Λ` positive definite (the clamped, damped diagonal: C07), then contracting with `D` gives
+`‖J D‖² + (J D)·R + DᵀΛD = 0` with `DᵀΛD > 0` for `D ≠ 0`, hence `den = ‖J D‖² + 2·DᵀΛD > 0` — the assumption of
+`rejected_is_unsuccessful`. -/
+theorem qualityDen_pos_of_lm_step (J : DMat ℝ) (Dv R : DVec ℝ) (hlen : R.length = J.length) (lam : ℝ) (hlam : 0 < lam)
+    (hne : DVec.normSq (DMat.mulVec J Dv) + DVec.dot (DMat.mulVec J Dv) R + lam = 0) :
+    0 < qualityDen J Dv R ∧ qualityDen J Dv R = DVec.normSq (DMat.mulVec J Dv) + 2 * lam := by
+  have hl : R.length = (DMat.mulVec J Dv).length := by unfold DMat.mulVec; simpa using hlen
+  have key : qualityDen J Dv R = -(2 * DVec.dot (DMat.mulVec J Dv) R + DVec.normSq (DMat.mulVec J Dv)) := by
+    unfold qualityDen DVec.normSq DVec.dot
+    simp only [dsum_eq, k_real, Nat.cast_ofNat]
+    have : ∀ (R u : List ℝ), R.length = u.length →
+        (List.zipWith (· * ·) u (List.zipWith (fun r ui => 2 * r + ui) R u)).sum =
+          2 * (List.zipWith (· * ·) u R).sum + (List.zipWith (· * ·) u u).sum := by
+      intro R u
+      induction R generalizing u with
+      | nil => intro h; cases u <;> simp at h ⊢
+      | cons r R ih =>
+        intro h
+        cases u with
+        | nil => simp at h
+        | cons a u =>
+          simp only [List.zipWith_cons_cons, List.sum_cons]
+          rw [ih u (by simpa using h)]; ring
+    rw [this R _ hl]
+  have hnn : 0 ≤ DVec.normSq (DMat.mulVec J Dv) := normSq_nonneg _
+  constructor
+  · rw [key]; nlinarith
+  · rw [key]; linarith
+
+/-! ## `kernel=[]` -/
+
+/-- an empty kernel list makes the first loss evaluation raise `IndexError` (`self.kernel[0]`) -/
+theorem robustLossE_nil (outs : List (Output ℝ)) : robustLossE ([] : List (ℝ → ℝ)) outs = .error "IndexError" := rfl
+
+theorem robustLossE_ok (ks : List (ℝ → ℝ)) (hne : ks ≠ []) (outs : List (Output ℝ)) :
+    robustLossE ks outs = .ok (robustLoss ks outs) := by
+  unfold robustLossE
+  cases ks with
+  | nil => exact absurd rfl hne
+  | cons a ks => rfl
+
+/-- through the constructors: `kernel=[]` is the only spelling that reaches the error; `None` and a single kernel never do -/
+theorem lossOfE_spec (rho : ℝ → ℝ) (outs : List (Output ℝ)) :
+    lossOfE (KSpec.list []) outs = .error "IndexError" ∧
+    lossOfE KSpec.none outs = .ok (lossOf KSpec.none outs) ∧
+    lossOfE (KSpec.single rho) outs = .ok (lossOf (KSpec.single rho) outs) := ⟨rfl, rfl, rfl⟩
 
 /-! ## non-vacuity: concrete runs of the model (`P = D = ℚ`-like reals, loss `x²`) -/
 
